@@ -50,6 +50,57 @@ Theorem C07_exit_sites_covered :
 Proof. exact exit_sites_covered. Qed.
 Print Assumptions C07_exit_sites_covered.
 
+(* The WebSocket and QUIC loops are one function each (the handlers are inline in the select! arms), so
+   they have their own exit tables, extracted from src/transport/{websocket,quic}/connection.rs on every
+   check; the behaviour model (cstep) is shared. *)
+Theorem C07_ws_exits_match : ws_model_exits = ConnExits.ws_exits /\ ConnExits.ws_exits_complete = true.
+Proof. exact ws_exits_match. Qed.
+Print Assumptions C07_ws_exits_match.
+
+Theorem C07_quic_exits_match : quic_model_exits = ConnExits.quic_exits /\ ConnExits.quic_exits_complete = true.
+Proof. exact quic_exits_match. Qed.
+Print Assumptions C07_quic_exits_match.
+
+(* In these sources every exit site of the loop is dominated by a call of report_connection_closed. *)
+Theorem C07_ws_source_exits_dominated : forallb reported_site ConnExits.ws_exits = true.
+Proof. exact ws_source_exits_dominated. Qed.
+Print Assumptions C07_ws_source_exits_dominated.
+
+Theorem C07_quic_source_exits_dominated : forallb reported_site ConnExits.quic_exits = true.
+Proof. exact quic_source_exits_dominated. Qed.
+Print Assumptions C07_quic_source_exits_dominated.
+
+(* The model leaves the loop exactly where the source has an exit site for that select! branch: the site is
+   listed, dominated by the report, a `?` site is taken only when the report returned an error, and the
+   notes sent are the closed report; where the map gives no site the loop carries on. *)
+Theorem C07_ws_exit_sites_sound :
+  forall t e, gone t = None ->
+  match ws_site t e with
+  | Some i => gone (fst (cstep t e)) <> None /\ site_ok ConnExits.ws_exits t e i
+  | None => gone (fst (cstep t e)) = None
+  end.
+Proof. exact ws_sites_sound. Qed.
+Print Assumptions C07_ws_exit_sites_sound.
+
+Theorem C07_quic_exit_sites_sound :
+  forall t e, gone t = None ->
+  match quic_site t e with
+  | Some i => gone (fst (cstep t e)) <> None /\ site_ok ConnExits.quic_exits t e i
+  | None => gone (fst (cstep t e)) = None
+  end.
+Proof. exact quic_sites_sound. Qed.
+Print Assumptions C07_quic_exit_sites_sound.
+
+Theorem C07_ws_exit_sites_covered :
+  forall i, (i < length ConnExits.ws_exits)%nat -> exists t e, gone t = None /\ ws_site t e = Some i.
+Proof. exact ws_sites_covered. Qed.
+Print Assumptions C07_ws_exit_sites_covered.
+
+Theorem C07_quic_exit_sites_covered :
+  forall i, (i < length ConnExits.quic_exits)%nat -> exists t e, gone t = None /\ quic_site t e = Some i.
+Proof. exact quic_sites_covered. Qed.
+Print Assumptions C07_quic_exit_sites_covered.
+
 (* ---------------------------------------------------------------------------------------- *)
 (* part 1: the connection task                                                                *)
 
